@@ -342,4 +342,244 @@ def convexPolygonsIntersectionPoints (poly1 poly2 : Array (V2 K)) (eps : K) : Ar
     | none, some l => some (l.toPoint poly2)
     | none, none => none
 
+/-! ## `transformation/polygon_intersection.rs`: non-convex polygons (`polygons_intersection`)
+
+Intersection-point graph (`compute_sorted_edge_intersections`), `visited` bookkeeping, component traversal and the
+fully-inside fall-backs.
+
+Modelling decisions (each a faithful abstraction, none changes an observable result):
+* the two `HashMap<EdgeId, Vec<IntersectionPoint>>` are the function `onEdge I p e` = the intersections whose edge on
+  polygon `p` is `e`, in enumeration (push) order, then **stably** sorted by `centered_bcoords` (`sort_by_key` is a
+  stable merge sort; a stable sort is unique, so insertion sort gives the same list).  An absent key and an empty
+  vector are the same thing (`entry().or_default().push()` never leaves an empty vector, and the code reads with
+  `.get().unwrap_or(&empty)`).
+* the iteration order of `intersections[0].values()` is the order of a randomly seeded hash map (hashbrown + foldhash):
+  it is the parameter `order` (a list of edge ids of `poly1`).  Theorems are stated for **every** order; the driver
+  evaluates at the ascending order and compares outputs up to rotation of each component and order of components.
+* `visited: Vec<bool>` is the list of visited ids (ids are always in range).
+* `OrderedFloat` orders NaN above everything; keys are never NaN on finite inputs (|denom| ≥ eps) — not modelled.
+-/
+
+/-- `IntersectionPoint` -/
+structure IPoint (K : Type) where
+  id : Nat
+  e1 : Nat
+  e2 : Nat
+  loc1 : PolyLoc K
+  loc2 : PolyLoc K
+deriving Repr
+
+/-- `inter.edges[p]` -/
+@[inline] def IPoint.edge (ip : IPoint K) (p : Nat) : Nat := if p = 0 then ip.e1 else ip.e2
+/-- `inter.locs[p]` -/
+@[inline] def IPoint.loc (ip : IPoint K) (p : Nat) : PolyLoc K := if p = 0 then ip.loc1 else ip.loc2
+
+/-- `PolylinePointLocation::centered_bcoords([e0, (e0 + 1) % len])` (the `assert_eq!` on `OnEdge` holds by construction) -/
+def centeredBcoords : PolyLoc K → Nat → K
+  | .onVertex vid, e0 => if vid = e0 then 0 else 1
+  | .onEdge _ _ _ v, _ => v
+
+/-- insertion after every element whose key is `≤` the new key (stable) -/
+def insertByKey {α : Type} (key : α → K) (x : α) : List α → List α
+  | [] => [x]
+  | y :: ys => if key x < key y then x :: y :: ys else y :: insertByKey key x ys
+
+/-- `sort_by_key` (stable) -/
+def sortByKey {α : Type} (key : α → K) (l : List α) : List α :=
+  l.foldl (fun acc x => insertByKey key x acc) []
+
+/-- the `Point` intersections of edge `i1` of `poly1` with every edge of `poly2`, in the order of the inner loop
+(`Segment` results are dropped: "Collinear segment-segment intersections not properly handled yet") -/
+def edgeRow (poly1 poly2 : Array (V2 K)) (eps : K) (i1 : Nat) : List (Nat × Nat × PolyLoc K × PolyLoc K) :=
+  let len1 := poly1.size
+  let len2 := poly2.size
+  let j1 := (i1 + 1) % len1
+  (List.range len2).filterMap fun i2 =>
+    let j2 := (i2 + 1) % len2
+    match segmentsIntersection2d (ppt poly1 i1) (ppt poly1 j1) (ppt poly2 i2) (ppt poly2 j2) eps with
+    | some (.point loc1 loc2) => some (i1, i2, PolyLoc.ofSegLoc i1 j1 loc1, PolyLoc.ofSegLoc i2 j2 loc2)
+    | _ => none
+
+/-- numbering of the crossings: `id` = position in the enumeration -/
+def numberFrom : Nat → List (Nat × Nat × PolyLoc K × PolyLoc K) → List (IPoint K)
+  | _, [] => []
+  | n, (i1, i2, l1, l2) :: rest => ⟨n, i1, i2, l1, l2⟩ :: numberFrom (n + 1) rest
+
+/-- all intersection points of `compute_sorted_edge_intersections`, in the order they receive their ids -/
+def intersections (poly1 poly2 : Array (V2 K)) (eps : K) : List (IPoint K) :=
+  numberFrom 0 ((List.range poly1.size).flatMap (edgeRow poly1 poly2 eps))
+
+/-- `intersections[p].get(&e)`: the sorted intersections lying on edge `e` of polygon `p` -/
+def onEdge (I : List (IPoint K)) (p e : Nat) : List (IPoint K) :=
+  sortByKey (fun ip => centeredBcoords (ip.loc p) (ip.edge p)) (I.filter fun ip => ip.edge p == e)
+
+/-- what the `out` closure receives -/
+inductive Emit (K : Type) where
+  /-- `out(Some(inter.locs[0]), Some(inter.locs[1]))` -/
+  | inter (ip : IPoint K)
+  /-- `out(Some(OnVertex(v)), None)` for `poly = 0`, `out(None, Some(OnVertex(v)))` for `poly = 1` -/
+  | vtx (poly v : Nat)
+  /-- `out(None, None)`: one component is complete -/
+  | fin
+deriving Repr
+
+def Emit.toPair : Emit K → OutPair K
+  | .inter ip => (some ip.loc1, some ip.loc2)
+  | .vtx p v => if p = 0 then (some (.onVertex v), none) else (none, some (.onVertex v))
+  | .fin => (none, none)
+
+/-- `TraversalStatus` -/
+inductive TStatus where
+  | onVertex
+  | onInter (id : Nat)
+deriving Repr
+
+/-- `to_traverse`, `status`, `visited` and everything emitted so far -/
+structure Walk (K : Type) where
+  poly : Nat
+  edge : Nat
+  status : TStatus
+  visited : List Nat
+  trace : List (Emit K)
+
+/-- how the `for loop_id in 0..` loop ends: `break` (component closed), `Err(InfiniteLoop)`, or the
+`.find(..).unwrap_or_else(|| unreachable!())` panic -/
+inductive WalkEnd where
+  | closed | infiniteLoop | unreachable
+deriving DecidableEq, Repr
+
+/-- `edge_inters.iter().enumerate().find(|(_, inter)| inter.id == inter_id)`, positions counted from `n` -/
+def findPosFrom (id : Nat) : Nat → List (IPoint K) → Option (Nat × IPoint K)
+  | _, [] => none
+  | n, ip :: rest => if ip.id = id then some (n, ip) else findPosFrom id (n + 1) rest
+
+def findPos (l : List (IPoint K)) (id : Nat) : Option (Nat × IPoint K) := findPosFrom id 0 l
+
+/-- number of vertices of polygon `p` (`polys[p].len()`) -/
+@[inline] def plen (len1 len2 p : Nat) : Nat := if p = 0 then len1 else len2
+
+/-- one iteration of the traversal loop: `inl` = continue with the new state, `inr` = the loop is left -/
+def walkStep (I : List (IPoint K)) (len1 len2 : Nat) (st : Walk K) : Sum (Walk K) (Walk K × WalkEnd) :=
+  let edgeInters := onEdge I st.poly st.edge
+  match st.status with
+  | .onInter id =>
+    match findPos edgeInters id with
+    | none => .inr (st, .unreachable)
+    | some (pos, cur) =>
+      if st.visited.contains cur.id then
+        -- We already saw this intersection: we looped back to the start of the intersection polygon.
+        .inr ({ st with trace := st.trace ++ [Emit.fin] }, .closed)
+      else
+        let tr := st.trace ++ [Emit.inter cur]
+        let vis := cur.id :: st.visited
+        match edgeInters[pos + 1]? with
+        | some next =>
+          -- move forward to the next intersection point and move on to traversing the other polygon
+          let p' := (st.poly + 1) % 2
+          .inl { poly := p', edge := next.edge p', status := .onInter next.id, visited := vis, trace := tr }
+        | none =>
+          -- this was the last intersection, move to the next vertex on the same polygon
+          .inl { poly := st.poly, edge := (st.edge + 1) % plen len1 len2 st.poly, status := .onVertex,
+                 visited := vis, trace := tr }
+  | .onVertex =>
+    let tr := st.trace ++ [Emit.vtx st.poly st.edge]
+    match edgeInters.head? with
+    | some first =>
+      -- jump on the first intersection and move on to the other polygon
+      let p' := (st.poly + 1) % 2
+      .inl { poly := p', edge := first.edge p', status := .onInter first.id, visited := st.visited, trace := tr }
+    | none =>
+      -- move forward to the next vertex/edge on the same polygon
+      .inl { poly := st.poly, edge := (st.edge + 1) % plen len1 len2 st.poly, status := .onVertex,
+             visited := st.visited, trace := tr }
+
+/-- the traversal loop.  `fuel` = number of iterations still allowed: the code errors when `loop_id > len1 * len2`, i.e.
+it runs at most `len1 * len2 + 1` iterations. -/
+def walk (I : List (IPoint K)) (len1 len2 : Nat) : Nat → Walk K → Walk K × WalkEnd
+  | 0, st => (st, .infiniteLoop)
+  | fuel + 1, st =>
+    match walkStep I len1 len2 st with
+    | .inl st' => walk I len1 len2 fuel st'
+    | .inr r => r
+
+/-- `poly_to_traverse` at the start of a component: the polygon whose edge heads to the left of the other edge -/
+def startPoly (poly1 poly2 : Array (V2 K)) (eps : K) (ip : IPoint K) : Nat :=
+  let a1 := ppt poly1 ip.e1
+  let b1 := ppt poly1 ((ip.e1 + 1) % poly1.size)
+  let a2 := ppt poly2 ip.e2
+  let b2 := ppt poly2 ((ip.e2 + 1) % poly2.size)
+  match orientation2d a1 b1 a2 eps with
+  | .cw => 1
+  | .ccw => 0
+  | .degenerate =>
+    match orientation2d a1 b1 b2 eps with
+    | .cw => 0
+    | .ccw => 1
+    | .degenerate => 0
+
+/-- the two nested `for` loops over `intersections[0]`, flattened (`continue` on a visited intersection); stops at the
+first traversal that does not close -/
+def outerLoop (poly1 poly2 : Array (V2 K)) (eps : K) (I : List (IPoint K)) :
+    List (IPoint K) → List Nat × List (Emit K) → (List Nat × List (Emit K)) × Option WalkEnd
+  | [], s => (s, none)
+  | ip :: rest, (vis, tr) =>
+    if vis.contains ip.id then outerLoop poly1 poly2 eps I rest (vis, tr) else
+    let p := startPoly poly1 poly2 eps ip
+    let r := walk I poly1.size poly2.size (poly1.size * poly2.size + 1) ⟨p, ip.edge p, .onInter ip.id, vis, tr⟩
+    match r.2 with
+    | .closed => outerLoop poly1 poly2 eps I rest (r.1.visited, r.1.trace)
+    | e => ((r.1.visited, r.1.trace), some e)
+
+/-- result of `polygons_intersection`: what was emitted, and `Ok(())` / `Err(InfiniteLoop)` / a panic
+(`unreachable!()`, or `poly1[0]` / `poly2[0]` on an empty polygon) -/
+inductive PIStatus where
+  | ok | err | panic
+deriving DecidableEq, Repr
+
+structure PIResult (K : Type) where
+  trace : List (Emit K)
+  visited : List Nat
+  status : PIStatus
+
+/-- `polygons_intersection(poly1, poly2, out)` when the hash map iterates the edges of `poly1` in the order `order` -/
+def polygonsIntersectionOrd (order : List Nat) (poly1 poly2 : Array (V2 K)) : PIResult K :=
+  let eps : K := defaultCollinearityEps
+  let I := intersections poly1 poly2 eps
+  let starts := order.flatMap fun e => onEdge I 0 e
+  let r := outerLoop poly1 poly2 eps I starts ([], [])
+  match r.2 with
+  | some .infiniteLoop => ⟨r.1.2, r.1.1, .err⟩
+  | some _ => ⟨r.1.2, r.1.1, .panic⟩
+  | none =>
+    let tr := r.1.2
+    -- If there are no intersection, check if one polygon is inside the other.
+    if I.isEmpty then
+      if poly1.size = 0 then ⟨tr, r.1.1, .panic⟩
+      else if pointInPoly2d (ppt poly1 0) poly2.toList then
+        ⟨tr ++ (List.range poly1.size).map (Emit.vtx 0) ++ [.fin], r.1.1, .ok⟩
+      else if poly2.size = 0 then ⟨tr, r.1.1, .panic⟩
+      else if pointInPoly2d (ppt poly2 0) poly1.toList then
+        ⟨tr ++ (List.range poly2.size).map (Emit.vtx 1) ++ [.fin], r.1.1, .ok⟩
+      else ⟨tr, r.1.1, .ok⟩
+    else ⟨tr, r.1.1, .ok⟩
+
+/-- `polygons_intersection` with the edges of `poly1` visited in ascending order -/
+def polygonsIntersection (poly1 poly2 : Array (V2 K)) : PIResult K :=
+  polygonsIntersectionOrd (List.range poly1.size) poly1 poly2
+
+/-- the closure of `polygons_intersection_points`: `(result, curr_poly)` after one more call -/
+def splitStep (poly1 poly2 : Array (V2 K)) (acc : List (List (V2 K)) × List (V2 K)) : Emit K → List (List (V2 K)) × List (V2 K)
+  | .inter ip => (acc.1, acc.2 ++ [ip.loc1.toPoint poly1])
+  | .vtx p v => (acc.1, acc.2 ++ [ppt (if p = 0 then poly1 else poly2) v])
+  | .fin => if acc.2.isEmpty then acc else (acc.1 ++ [acc.2], [])
+
+/-- split the emission stream at the `fin` markers (an empty current polygon is not pushed) -/
+def splitComponents (poly1 poly2 : Array (V2 K)) (tr : List (Emit K)) : List (List (V2 K)) :=
+  (tr.foldl (splitStep poly1 poly2) ([], [])).1
+
+/-- `polygons_intersection_points(poly1, poly2)`: status `err` = `Err(InfiniteLoop)` -/
+def polygonsIntersectionPoints (poly1 poly2 : Array (V2 K)) : PIStatus × List (List (V2 K)) :=
+  let r := polygonsIntersection poly1 poly2
+  (r.status, if r.status = .ok then splitComponents poly1 poly2 r.trace else [])
+
 end Model.C15
